@@ -38,7 +38,7 @@ PROBES = ["ca_validation_on_as_well", "cert_changed_detected", "unreadable_cert_
           "first_use_pinned", "pinned_match", "import_applied", "revoke_then_refetch", "tofu_off",
           "upload_checked", "ec_cert", "first_use_on_failing_endpoint", "overlapping_first_use", "near_miss_pin_imported", "mixed_case_host_spelling", "server_speaks_first_tls12", "failed_import_in_history",
           "overlapping_ops_different_endpoints", "sql_fault_during_operation",
-          "chain_revisits_an_endpoint", "certificate_changed_between_two_hops_of_one_chain"]
+          "chain_revisits_an_endpoint", "connection_dropped_after_request_then_certificate_swap", "certificate_changed_between_two_hops_of_one_chain"]
 COMPONENTS = {
     "real": ["nauyaca.client.session.GeminiClient (get/upload/delete, redirects)",
              "nauyaca.client.protocol", "nauyaca.security.tofu.TOFUDatabase on a real sqlite file",
@@ -76,7 +76,7 @@ def run_one(ch):
     nops = 1 + ch.choose("nops", 12)
     model = {}
     st = {"hist": [], "changed": 0, "unreadable": 0, "redir": 0, "first": 0, "match": 0,
-          "import": 0, "mutation": 0, "upload": 0, "refetch": 0, "failing": 0, "concurrent": 0, "nearmiss": 0, "mixedcase": 0, "speakfirst": 0, "failedimport": 0, "overlapdiff": 0, "sqlfault": 0, "revisit": 0, "revisit_changed": 0}
+          "import": 0, "mutation": 0, "upload": 0, "refetch": 0, "failing": 0, "concurrent": 0, "nearmiss": 0, "mixedcase": 0, "speakfirst": 0, "failedimport": 0, "overlapdiff": 0, "sqlfault": 0, "revisit": 0, "revisit_changed": 0, "dropswap": 0}
     revoked = set()
 
     def endpoint(label):
@@ -108,7 +108,7 @@ def run_one(ch):
                               tofu_db_path=pathlib.Path(w.db_path))
         db = client.tofu_db if tofu_on else TOFUDatabase(pathlib.Path(w.db_path))
         for i in range(nops):
-            op = ch.choose("op", 16, [10, 4, 2, 2, 2, 1, 1, 3, 8, 4, 1, 3, 3, 3, 3, 3])
+            op = ch.choose("op", 17, [10, 4, 2, 2, 2, 1, 1, 3, 8, 4, 1, 3, 3, 3, 3, 3, 2])
             if op in (0, 1, 2):
                 key = endpoint("ep")
                 kind = ["get", "upload", "delete"][op]
@@ -355,6 +355,51 @@ def run_one(ch):
                 w.fail_mode[key] = ch.pick("failmode", [None, "close", "rst", "stall"], [2, 2, 2, 1])
                 st["hist"].append(f"env: {key[0]}:{key[1]} failure mode {w.fail_mode[key]}")
                 continue
+            elif op == 16 and tofu_on:
+                # the endpoint takes the request and drops the connection without a byte (crash,
+                # restart); whoever answers on that port afterwards presents another certificate
+                P = endpoint("dr")
+                if w.fail_mode.get(P) or w.speak_first.get(P) or w.redirect.get(P) is not None:
+                    continue
+                A = w.servers[P].cert
+                B = pool[ch.choose("drcert", len(pool), cw)]
+                kind = ch.pick("drkind", ["get", "upload"], [3, 1])
+                w.drop_once[P] = ch.pick("drhow", ["close", "rst"])
+                w.servers[P].cert_queue = [A]
+                w.servers[P].cert = B
+                desc = f"{kind} {url_of(P, '/dropped')} [connection dropped after the request; {P[0]}:{P[1]} then presents {B}]"
+                st["hist"].append(desc)
+                st["dropswap"] += 1
+                pend = dict(model)
+                expect = "fail"
+                if A in fx.BAD_CERTS:
+                    expect = "unreadable"
+                elif pend.get(P) is None:
+                    pend[P] = fx.fp(A)
+                elif pend[P] != fx.fp(A):
+                    expect = "changed"
+                try:
+                    if kind == "get":
+                        r = await client.get(desc.split(" ")[1])
+                    else:
+                        r = await client.upload(desc.split(" ")[1], b"payload", token="tok")
+                    got = ("resp", r)
+                except CertificateChangedError as e:
+                    got = ("changed", e)
+                except Exception as e:  # noqa
+                    got = ("err", e)
+                w.drop_once.pop(P, None)
+                w.servers[P].cert_queue = []
+                model.clear()
+                model.update(pend)
+                if got[0] == "resp" and B != A:
+                    res.violate("C03/wrong-response/after-dropped-connection",
+                                f"the connection that was verified was dropped without a response; "
+                                f"a response was returned all the same (the peer answering next "
+                                f"presents {B}, pinned/seen was {A})", step=desc, history=st["hist"][-8:],
+                                got=repr(got[1])[:200])
+                check_table(desc)
+                continue
             elif op == 15 and tofu_on:
                 # one fetch whose redirect chain comes back to an endpoint it already
                 # visited (P -> P or P -> Q -> P); P may present another certificate on
@@ -544,6 +589,7 @@ def run_one(ch):
               "overlapping_ops_different_endpoints": "overlapdiff",
               "sql_fault_during_operation": "sqlfault",
               "chain_revisits_an_endpoint": "revisit",
+              "connection_dropped_after_request_then_certificate_swap": "dropswap",
               "certificate_changed_between_two_hops_of_one_chain": "revisit_changed"}
     for probe, k in st_map.items():
         if st[k]:
